@@ -100,6 +100,7 @@ BUILTIN_RAISES = [
     ('exception-in-own-imported-file', "import tools_of_mine\nx = tools_of_mine.double(None)"),
     ('exception-after-stdout-closed', "import sys\nsys.stdout.close()\nx = 1 / 0"),
     ('exception-after-stdout-replaced', "import sys\nsys.stdout = None\nx = 1 / 0"),
+    ('exception-after-lowering-the-recursion-limit', "import sys\nfor n in range(5, 400):\n    try:\n        sys.setrecursionlimit(n)\n        break\n    except RecursionError:\n        pass\nx = 1 / 0"),
     ('exception-deep-frames', "def d0(n):\n    if n == 0:\n        return 1 // 0\n    return d0(n - 1)\nd0(12)"),
     ('exception-in-method', "class K:\n    def m(self):\n        return self.zzz\nK().m()"),
     ('exception-in-sorted-key', "sorted([3, 1], key=lambda v: v.k)"),
@@ -311,6 +312,7 @@ def reference(files, entry, inputs, call_args=()):
     real_sleep = time.sleep
     real_modules = sys.modules
     real_trace = sys.gettrace()
+    real_limit = sys.getrecursionlimit()
     try:
         time.sleep = lambda *a, **k: None
         with contextlib.redirect_stdout(buf):
@@ -323,6 +325,7 @@ def reference(files, entry, inputs, call_args=()):
                 elif entry == 'run-code':
                     pass
             except BaseException as e:
+                sys.setrecursionlimit(real_limit)       # (first of all: the body may have lowered it to just above its own depth)
                 r.exc = e
                 r.cls = class_name(e)
                 tb = traceback.extract_tb(e.__traceback__)
@@ -331,6 +334,7 @@ def reference(files, entry, inputs, call_args=()):
                     if tb[-1].filename in STUDENT_FILES:
                         r.line = tb[-1].lineno
     finally:
+        sys.setrecursionlimit(real_limit)
         time.sleep = real_sleep
         sys.modules = real_modules          # (the reference run is the real thing: whatever the body rebinds is rebound for real)
         if sys.gettrace() is not real_trace:
@@ -559,6 +563,12 @@ def execute_case(ctx, which, case, state=None):
 
 
 def _execute_case(ctx, which, case, state=None):
+    if case.get('mode') == 'exception-after-lowering-the-recursion-limit' and (case.get('tracer', 'none') != 'none' or case.get('threaded') or
+                                                                              'outer-trace' in case.get('env', '')):
+        # (the limit is the interpreter's: set from a thread of its own it can be lower than the depth the GRADER's thread is at, and
+        # under a trace function the program itself has no room left for the next line's callback - other questions than this one)
+        ctx.count('cells_skipped_(lowered recursion limit with a tracer or in a thread)')
+        return
     """case: {'mode':..., 'body':..., 'kind':..., 'entry':..., 'tracer':..., 'threaded':bool, 'position': 'first'|'after-failure'|'after-ok'}"""
     mode, entry, tracer, threaded = case['mode'], case['entry'], case.get('tracer', 'none'), case.get('threaded', False)
     kind = case['kind']
@@ -751,6 +761,7 @@ def _measured(ctx, which, case, sandbox, report, files, inputs, n_rt_before):
                     snap.restore()
             try:
                 sbx.clear_output()
+                sandbox.allowed_time = 20       # (the probe is not about time limits: setting a measurement up can take longer than the cell's)
                 sbx.run(code='print("probe-text")')
                 got = sbx.get_raw_output()
                 ctx.count('probe_runs')
